@@ -173,12 +173,12 @@ func reopenRead(dir string, start walpb.Snapshot) (out Outcome) {
 
 // verdict of the admissibility oracle for one outcome.
 type verdict struct {
-	OK      bool
-	Sig     string // violation class (fault kind is appended by the caller)
-	Msg     string
-	P       int // matched prefix length (-1: outcome was a loud failure)
+	OK       bool
+	Sig      string // violation class (fault kind is appended by the caller)
+	Msg      string
+	P        int  // matched prefix length (-1: outcome was a loud failure)
 	NoMarker bool // success although the matched prefix does not hold the start marker (ReadAll drops ErrSnapshotNotFound in write mode)
-	Dropped int // records of the must-survive set S missing from the matched prefix (only possible when anyPrefix)
+	Dropped  int  // records of the must-survive set S missing from the matched prefix (only possible when anyPrefix)
 }
 
 func snapsEqual(a, b []walpb.Snapshot) bool {
@@ -336,17 +336,50 @@ func judge(l *Log, nrecs, minP int, out *Outcome, meta []byte, present func(int)
 			return verdict{Sig: "synced-" + kind + "-lost", Msg: what + fmt.Sprintf(" = effect of the first %d records, but %d records were saved before the last completed sync (first missing: %s of call %d)", p, minP, kind, recs[p].Call), P: -1}
 		}
 	}
+	// The result may be explained by a reader that lets only entries above the
+	// start snapshot truncate: an overwrite at or below the snapshot index does
+	// not remove the stale entries above it.
+	for p := nrecs; p >= lo; p-- {
+		var ents []*raftpb.Entry
+		var hs raftpb.HardState
+		for i := range recs[:p] {
+			switch r := &recs[i]; r.Kind {
+			case recEntry:
+				if r.Ent.Index > out.Start.Index {
+					for n := len(ents); n > 0 && ents[n-1].Index >= r.Ent.Index; n = len(ents) {
+						ents = ents[:n-1]
+					}
+					ents = append(ents, r.Ent)
+				}
+			case recState:
+				hs = r.HS
+			}
+		}
+		same := hs == out.HS && len(ents) == len(out.Ents)
+		for i := 0; same && i < len(ents); i++ {
+			same = entEqual(ents[i], &out.Ents[i])
+		}
+		if same {
+			return verdict{Sig: "truncated-entries-returned-above-snapshot", Msg: what + fmt.Sprintf("; these are entries that an overwrite at an index <= the start snapshot %d had truncated (the reader applies the truncation of an entry only when its index is above the start snapshot); effect of all %d records: %s", out.Start.Index, nrecs, effStr(effect(recs, out.Start))), P: -1}
+		}
+	}
 	for i := 1; i < len(out.Ents); i++ {
 		if out.Ents[i].Index != out.Ents[i-1].Index+1 {
 			return verdict{Sig: "not-a-prefix/index-not-consecutive", Msg: what + fmt.Sprintf("; entry %d is followed by entry %d", out.Ents[i-1].Index, out.Ents[i].Index), P: -1}
 		}
 	}
-	full := effect(recs, out.Start)
-	fs := fmt.Sprintf("state=%+v, %d entries", hsOf(full.HS), len(full.Ents))
-	if n := len(full.Ents); n > 0 {
-		fs += fmt.Sprintf(" [%d..%d]", full.Ents[0].Index, full.Ents[n-1].Index)
-	}
-	return verdict{Sig: "not-a-prefix", Msg: what + fmt.Sprintf("; no record prefix of length %d..%d has that effect (all %d records: %s, undefined=%v)", lo, nrecs, nrecs, fs, full.Bad), P: -1}
+	return verdict{Sig: "not-a-prefix", Msg: what + fmt.Sprintf("; no record prefix of length %d..%d has that effect (all %d records: %s)", lo, nrecs, nrecs, effStr(effect(recs, out.Start))), P: -1}
 }
 
 func hsOf(h raftpb.HardState) HS { return HS{h.Term, h.Vote, h.Commit} }
+
+func effStr(full Effect) string {
+	fs := fmt.Sprintf("state=%+v, %d entries", hsOf(full.HS), len(full.Ents))
+	if n := len(full.Ents); n > 0 {
+		fs += fmt.Sprintf(" [%d..%d] last term %d", full.Ents[0].Index, full.Ents[n-1].Index, full.Ents[n-1].Term)
+	}
+	if full.Bad {
+		fs += " (undefined: hole or marker term mismatch)"
+	}
+	return fs
+}
